@@ -1,7 +1,7 @@
 PROP = {
     "id": "C20",
     "theorem_modules": ["Verif.Properties.C20"],
-    "min_theorems": 12,
+    "min_theorems": 19,
     "required_theorems": [
         "Verif.Properties.C20.index_error_iff",
         "Verif.Properties.C20.insert_remove_inverse",
@@ -12,6 +12,10 @@ PROP = {
         "Verif.Properties.C20.dict_remove",
         "Verif.Properties.C20.keys_values_consistent",
         "Verif.Properties.C20.persist",
+        "Verif.Properties.C20.iteration_guards",
+        "Verif.Properties.C20.mutation_in_iteration_fails",
+        "Verif.Properties.C20.guard_released_after_iteration",
+        "Verif.Properties.C20.iter_op_spec",
     ],
     "streams": [
         {"name": "cont", "driver": "drv_cont",
@@ -26,17 +30,27 @@ PROP = {
                   "(read, write, insert, remove, removeFirst/Last, slice), insert/remove inverse, slice = drop/take, reverse "
                   "involutive, filter/map/concat/contains/firstIndex/toConstantSized/toVariableSized laws, dictionary "
                   "insert/remove/get/keys/values/containsKey consistency with distinct keys preserved by every operation, "
-                  "and persistence in the transaction machine (a history of committed transactions = the same operations in "
-                  "memory; an aborted transaction is a no-op).  Tied to /repo by the `cont` correspondence stream: operation "
+                  "persistence in the transaction machine (a history of committed transactions = the same operations in "
+                  "memory; an aborted transaction is a no-op), and the mutation guard of iterations (programs of nested "
+                  "iterations and mutations over one container: while any iteration is active a program fails with the "
+                  "mutation error exactly when it attempts a mutation, whatever its arguments, and otherwise leaves the "
+                  "container unchanged; the guard of an outer iteration survives the end of a nested one; after the "
+                  "iteration the mutation is the plain one).  Tied to /repo by the `cont` correspondence stream: operation "
                   "sequences (40-300 operations quick, 200-1500 thorough, at most ~300 per transaction) on [Int], [String] (strings up to 1100 chars: "
                   "non-inlinable), [[Int]], [struct], [T; 4] and {Int|String: Int|String|[Int]|struct}, sizes crossing atree slab "
                   "thresholds (hundreds of elements), each transaction either in memory (load, operate, save back) or in "
                   "place through an auth(Mutate) reference into storage, reloaded from the ledger in later transactions, in "
                   "the interpreter and the VM; every result and the full contents after every transaction are compared "
-                  "(dictionary enumerations as multisets, arrays exactly).",
+                  "(dictionary enumerations as multisets, arrays exactly). Iteration operations: `for` / map / forEachKey "
+                  "over the container with a nested iteration over the same container (a `for` that ends, a filter / "
+                  "forEachKey that ends, a `for` holding the mutation) and a mutation of the container at a chosen step, "
+                  "after the loop, or after a `break` (must fail with ContainerMutatedDuringIterationError exactly when the "
+                  "step is reached, also with an invalid index); every outer x nesting x mutation combination on 7 shapes "
+                  "in both modes and engines in every run (28 directed histories), plus random ones.",
     "level_note": "proof (spec machine) + CC: the spec is the property; that interpreter/value_array.go, value_dictionary.go, "
                   "bbq/vm and atree refine it is shown only by refinement testing on the generated sequences. atree is an "
-                  "external dependency (trusted, exercised). Mutation of a container during its own iteration is not generated.",
+                  "external dependency (trusted, exercised). Iteration is modelled only as far as the mutation guard goes "
+                  "(loop bodies do nothing but count, run a nested iteration and mutate).",
     "assumptions": ["element universe: Int, one-letter-repeated Strings, [Int], struct K.P(a: Int, b: String); keys Int or String",
                     "runs stopped by the harness computation limit (10^8) or rejected by the VM compiler as too large (65534 instructions per function) are skipped, not compared"],
     "trusted_base": ["spec Verif.Spec.Containers / machine Verif.Model.Cont (is the spec)",
